@@ -1157,10 +1157,43 @@ pub fn c06(args: &Args) -> i32 {
         bounds: json!({"alphabet": val_alphabet, "max_len": max_len3, "entry_points": ["parse_val::<i32,f64> (+ eval, unparse, operator_reprs, to_deepex, partial)", "eval_str::<f64>", "line_2_statement_val"],
             "note": "concrete data types: plain execution of enumerated inputs under catch_unwind (no solver); the panics of value.rs on special operand values are decided by engine K (C17)"}),
     };
-    finish(args, "C06", vec![p1, p2, p3], vec![], json!({
+    // part 4: long and deeply nested texts in a child process (a stack overflow cannot be caught in-process)
+    let t1 = Instant::now();
+    let mut deep = empty_out();
+    let exe = std::env::current_exe().unwrap();
+    for (depth, tokens) in [(10usize, 1000usize), (50, 1000), (100, 1000), (100, 300)] {
+        for shape in ["parens", "unary", "call", "mixed"] {
+            deep.stats.programs += 1;
+            deep.stats.note_text(depth as u64, &format!("{shape} {depth} {tokens}"));
+            // flat -> deep conversion nests one level per operator of a chain: 400+ operands exceed the 8 MiB stack, which the
+            // property excludes itself ("deeper recursion limits of the deep form are out of scope"); the 1000-token texts
+            // therefore run the parsing entry points, evaluation, printing, listings and deep -> flat only
+            let steps = if tokens > 300 { "parse" } else { "all" };
+            let st = std::process::Command::new(&exe).args(["deepnest", "--depth", &depth.to_string(), "--tokens", &tokens.to_string(), "--shape", shape, "--steps", steps]).stdout(std::process::Stdio::piped()).stderr(std::process::Stdio::null()).output();
+            match st {
+                Ok(o) if o.status.success() => {}
+                Ok(o) => {
+                    deep.stats.violations += 1;
+                    deep.stats.panics += 1;
+                    let why = if o.status.code().is_none() { "killed by a signal (stack exhausted)".to_string() } else { String::from_utf8_lossy(&o.stdout).trim().to_string() };
+                    deep.findings.push(mk_finding("panic", "deepnest", &Table::default(), &format!("{shape} text with {tokens} tokens nested {depth} deep"), None, String::new(), String::new(), why));
+                }
+                Err(e) => deep.findings.push(mk_finding("inconclusive", "deepnest", &Table::default(), "", None, String::new(), String::new(), format!("cannot spawn child: {e}"))),
+            }
+        }
+    }
+    deep.wall_s = t1.elapsed().as_secs_f64();
+    let p4 = Part {
+        name: "long-and-deep-texts",
+        out: deep,
+        bounds: json!({"texts": "4 shapes (nested parentheses, nested unary functions, nested call forms, mixed) x (depth, tokens) in (10,1000), (50,1000), (100,1000), (100,300)",
+            "run": "child process with the default 8 MiB main-thread stack (T = f64, default operators): FlatEx::parse, parse_wo_compile, DeepEx::parse, eval, unparse, operator listings, deep -> flat; for the 300-token texts also flat -> deep -> flat and partial (flat -> deep of a 400+-operand chain nests 400 levels and exceeds the stack: excluded by the property itself)",
+            "note": "a concrete resource measurement, not a solver question (path-level)"}),
+    };
+    finish(args, "C06", vec![p1, p2, p3, p4], vec![], json!({
         "functions": ["parser::tokenize_and_analyze", "parser::check_parsed_token_preconditions", "flat::detail::make_expression", "FlatEx::compile", "flat::detail::flatex_to_deepex", "deep::detail::make_expression", "deep::detail::process_unary", "DeepEx::compile", "partial::partial_deepex", "operator listings"],
         "assumptions": ["panic-freedom of a path is independent of T except through the operator functions, which are engine K's subject (C17)"],
-        "outside": ["arbitrary Unicode beyond the listed edge texts", "texts longer than the bound", "the 1000-token / depth-100 stack claim (a resource measurement, not a solver question)", "hangs"],
+        "outside": ["arbitrary Unicode beyond the listed edge texts", "texts longer than the bound (except the four long/deep shapes)", "hangs"],
     }))
 }
 
@@ -1650,6 +1683,76 @@ pub fn replay(args: &Args) -> i32 {
         _ => {
             println!("replay: findings of kind {kind} are replayed by re-running the property check");
             3
+        }
+    }
+}
+
+/// child process of the C06 long/deep part: builds one text and runs the real f64 API on it
+pub fn deepnest(args: &Args) -> i32 {
+    use exmex::DeepEx;
+    let depth: usize = args.get("depth", "100").parse().unwrap();
+    let tokens: usize = args.get("tokens", "1000").parse().unwrap();
+    let shape = args.get("shape", "parens");
+    // core: a chain long enough to reach the token count, wrapped `depth` times
+    let wrap_cost = match shape.as_str() {
+        "parens" => 2,
+        "unary" => 3,
+        "call" => 6,
+        _ => 4,
+    };
+    let chain_len = ((tokens.saturating_sub(depth * wrap_cost)) / 2).max(2);
+    let mut t = String::from("x");
+    for i in 0..chain_len {
+        t.push_str(["+", "*", "-", "/"][i % 4]);
+        t.push_str(["y", "2", "z", "1.5", "x"][i % 5]);
+    }
+    for i in 0..depth {
+        t = match (shape.as_str(), i % 4) {
+            ("parens", _) => format!("({t})"),
+            ("unary", _) => format!("sin({t})"),
+            ("call", _) => format!("max({t}, 1)"),
+            (_, 0) => format!("({t})*2"),
+            (_, 1) => format!("-cos({t})"),
+            (_, 2) => format!("min(3, {t})"),
+            _ => format!("1+({t})"),
+        };
+    }
+    let r = catch_unwind(AssertUnwindSafe(|| -> Result<(), String> {
+        let f = FlatEx::<f64>::parse(&t).map_err(|e| e.msg().to_string())?;
+        let n = f.var_names().len();
+        let vals = vec![1.25; n];
+        f.eval(&vals).map_err(|e| e.msg().to_string())?;
+        let w = FlatEx::<f64>::parse_wo_compile(&t).map_err(|e| e.msg().to_string())?;
+        w.eval(&vals).map_err(|e| e.msg().to_string())?;
+        let d = DeepEx::<f64>::parse(&t).map_err(|e| e.msg().to_string())?;
+        d.eval(&vals).map_err(|e| e.msg().to_string())?;
+        let _ = (d.unparse().len(), d.operator_reprs(), f.operator_reprs());
+        if args.get("steps", "all") == "parse" {
+            let f3 = FlatEx::<f64>::from_deepex(d).map_err(|e| e.msg().to_string())?;
+            f3.eval(&vals).map_err(|e| e.msg().to_string())?;
+            return Ok(());
+        }
+        let d2 = f.clone().to_deepex().map_err(|e| e.msg().to_string())?;
+        d2.eval(&vals).map_err(|e| e.msg().to_string())?;
+        let f2 = FlatEx::<f64>::from_deepex(d2).map_err(|e| e.msg().to_string())?;
+        f2.eval(&vals).map_err(|e| e.msg().to_string())?;
+        let f3 = FlatEx::<f64>::from_deepex(d).map_err(|e| e.msg().to_string())?;
+        f3.eval(&vals).map_err(|e| e.msg().to_string())?;
+        if shape != "call" && shape != "mixed" {
+            let p = f.partial(0).map_err(|e| e.msg().to_string())?;
+            p.eval(&vals).map_err(|e| e.msg().to_string())?;
+        }
+        Ok(())
+    }));
+    match r {
+        Ok(Ok(())) => 0,
+        Ok(Err(e)) => {
+            println!("rejected a well-formed text: {e}");
+            3
+        }
+        Err(_) => {
+            println!("panic");
+            4
         }
     }
 }
